@@ -220,6 +220,10 @@ class Ev:
             if is_code_ty(ty) :
                 env[binds[0][0]["hid"]] = ("codeval", self.code(init, env, mult))
                 continue
+            if ty.strip().endswith("intermediate::IR"):
+                # one instruction with a name of its own: `let store = IR::Assign(var, tmp);` .. `vec![store]`
+                env[binds[0][0]["hid"]] = ("opval", self.op(init, env, mult))
+                continue
             if len(binds) == 1 and binds[0][1] == ():
                 env[binds[0][0]["hid"]] = self.val(init, env, mult)
                 continue
@@ -448,6 +452,8 @@ class Ev:
             return [("op", name, args, line_of(e))]
         if k == "Path" and e.get("res") == "Def" and norm_path(e.get("path", "")).startswith(IRP + "::"):
             return [("op", last(norm_path(e["path"])), [], line_of(e))]
+        if k == "Path" and e.get("res") == "Local" and isinstance(env.get(e.get("hid")), tuple) and env[e["hid"]][0] == "opval":
+            return list(env[e["hid"]][1])
         if k == "Match":
             alts, labels = [], []
             for arm in e["arms"]:
